@@ -43,17 +43,30 @@ Definition pdur_case_ok (c : (Z * Z * Z) * list Z) : bool :=
   | _ => false end.
 
 (* ---- routines *)
-Record answers := {
-  a_utf8 : list (string * res string);
-  a_int : list (string * res Z); a_tok : list (string * res tok);
-  a_parse : list (string * res parsed); a_timeiso : list (string * res tmf); a_isdigit : list (string * bool);
-  a_canon : string; a_uuid_int : res tok; a_enum_text : res tok; a_enum_loaded : res tok; a_load : res val;
-  a_int_of_float : res Z; a_float_of_int : res tok; a_fromts : res dtf; a_timestamp : res tok;
-  a_total_seconds : tok; a_tdsec : res (Z * Z * Z) }.
 Fixpoint lookup {B} (k : string) (l : list (string * B)) : option B :=
   match l with [] => None | (k', v) :: r => if String.eqb k k' then Some v else lookup k r end.
 Definition look {B} (l : list (string * res B)) (k : string) : res B :=
   match lookup k l with Some r => r | None => Unmodelled end.
+Fixpoint lookup_val {B} (v : val) (l : list (val * B)) : option B :=
+  match l with [] => None | (k, b) :: r => if val_eqb v k then Some b else lookup_val v r end.
+Definition look_val {B} (l : list (val * res B)) (v : val) : res B :=
+  match lookup_val v l with Some r => r | None => Unmodelled end.
+(* a_enum: E(v) keyed by the value asked (the decoded text and a loaded value may both be strs);
+   a_base: the data-type mixin view of the enum members in sight; a_pyeq: x == y for the pairs the model asks;
+   a_truthy: bool(x); a_compile / a_ptext: re.compile(s), p.pattern *)
+Record answers := {
+  a_utf8 : list (string * res string);
+  a_int : list (string * res Z); a_tok : list (string * res tok);
+  a_parse : list (string * res parsed); a_timeiso : list (string * res tmf); a_isdigit : list (string * bool);
+  a_canon : string; a_uuid_int : res tok; a_enum : list (val * res tok); a_load : res val;
+  a_int_of_float : res Z; a_float_of_int : res tok; a_fromts : res dtf; a_timestamp : res tok;
+  a_total_seconds : tok; a_tdsec : res (Z * Z * Z);
+  a_member : list (string * bool); a_base : list (string * val); a_pyeq : list (val * (val * bool)); a_truthy : list (val * res bool);
+  a_compile : list (string * res tok); a_ptext : list (string * val) }.
+Fixpoint lookup_pair (x y : val) (l : list (val * (val * bool))) : bool :=
+  match l with
+  | [] => false
+  | (a, (b, r)) :: t => if val_eqb x a && val_eqb y b then r else lookup_pair x y t end.
 Definition rt_of (a : answers) : Runtime := {|
   utf8_decode := look (a_utf8 a);
   utf8_encode := fun s => s;     (* a str is represented by its UTF-8 bytes in the cases files *)
@@ -65,7 +78,7 @@ Definition rt_of (a : answers) : Runtime := {|
   uuid_of_str := fun s => look (a_tok a) ("uuid:" ++ s);
   uuid_of_int := fun _ => a_uuid_int a;
   path_of_str := fun s => look (a_tok a) ("path:" ++ s);
-  enum_of_val := fun v => match v with VText CStr _ => a_enum_text a | _ => a_enum_loaded a end;
+  enum_of_val := look_val (a_enum a);
   int_of_float := fun _ => a_int_of_float a;
   float_of_int := fun _ => a_float_of_int a;
   load := fun _ => a_load a;
@@ -75,33 +88,25 @@ Definition rt_of (a : answers) : Runtime := {|
   timestamp := fun _ => a_timestamp a;
   td_total_seconds := fun _ => a_total_seconds a;
   td_of_seconds := fun _ => a_tdsec a;
-  is_digit_str := fun s => match lookup s (a_isdigit a) with Some b => b | None => false end |}.
+  is_digit_str := fun s => match lookup s (a_isdigit a) with Some b => b | None => false end;
+  is_member := fun m => match lookup m (a_member a) with Some b => b | None => false end;
+  enum_base := fun m => lookup m (a_base a);
+  py_eq := fun x y => lookup_pair x y (a_pyeq a);
+  truthy := look_val (a_truthy a);
+  re_compile := look (a_compile a);
+  pattern_text := fun p => match lookup p (a_ptext a) with Some v => v | None => VNone end |}.
 
-Inductive routine := RInt | RFloat | RDec | RFrac | RUuid | RPath | REnum | RDate | RDateTime | RTime | RTimeDelta | RStr | RBytes.
+Inductive routine := RBool | RInt | RFloat | RDec | RFrac | RUuid | RPath | REnum | RDate | RDateTime | RTime | RTimeDelta
+                   | RStr | RBytes | RPattern | RNone | RLit (vs : list val).
 Definition run_routine (rt : Runtime) (r : routine) (v : val) : res val :=
   match r with
+  | RBool => unm_number rt KBool v
   | RInt => unm_number rt KInt v | RFloat => unm_number rt KFloat v | RDec => unm_number rt KDec v
   | RFrac => unm_number rt KFrac v | RUuid => unm_uuid rt v | RPath => unm_path rt v | REnum => unm_enum rt v
   | RDate => unm_date rt v | RDateTime => unm_datetime rt v | RTime => unm_time rt v
-  | RTimeDelta => unm_timedelta rt v | RStr => unm_str rt v | RBytes => unm_bytes rt v end.
+  | RTimeDelta => unm_timedelta rt v | RStr => unm_str rt v | RBytes => unm_bytes rt v
+  | RPattern => unm_pattern rt v | RNone => unm_none rt v | RLit vs => unm_literal rt vs v end.
 
-Definition carrier_eqb (a b : carrier) : bool :=
-  match a, b with CStr, CStr | CBytes, CBytes | CBytearray, CBytearray | CMvBytes, CMvBytes | CMvBytearray, CMvBytearray => true
-  | _, _ => false end.
-Definition dtf_eqb (a b : dtf) : bool := same_dt a b && (dfold a =? dfold b).
-Definition tmf_eqb (a b : tmf) : bool := same_tm a b && (tfold a =? tfold b).
-Definition val_eqb (a b : val) : bool :=
-  match a, b with
-  | VNone, VNone => true
-  | VInt x, VInt y => x =? y
-  | VFloat x, VFloat y | VDec x, VDec y | VFrac x, VFrac y | VUuid x, VUuid y | VPath x, VPath y
-  | VEnum x, VEnum y | VOther x, VOther y => String.eqb x y
-  | VText c s, VText c' s' => carrier_eqb c c' && String.eqb s s'
-  | VDate y m d, VDate y' m' d' => (y =? y') && (m =? m') && (d =? d')
-  | VDateTime x, VDateTime y => dtf_eqb x y
-  | VTime x, VTime y => tmf_eqb x y
-  | VTimeDelta d s u, VTimeDelta d' s' u' => (d =? d') && (s =? s') && (u =? u')
-  | _, _ => false end.
 (* Ok values exactly; every exception collapses to "raised" *)
 Definition res_eqb (a b : res val) : bool :=
   match a, b with Ok x, Ok y => val_eqb x y | Raise _, Raise _ => true | _, _ => false end.
